@@ -74,7 +74,7 @@ func engData(d map[string]interface{}) *document.TemplateData {
 	td.SetCondition("c", c)
 	td.SetImageWithDetails("img", "", append([]byte(nil), engPNG...),
 		&document.ImageConfig{Size: &document.ImageSize{Width: 10, Height: 10}, Position: document.ImagePositionInline, Alignment: document.AlignCenter},
-		"", "")
+		"alt text", "title")
 	return td
 }
 
@@ -276,82 +276,123 @@ func (c *engCtx) renderChecked(name, entry string, d map[string]interface{}) (en
 	return res, doc, engDiff(before, after)
 }
 
-func runEngine(c Case, emit Emitter) {
-	document.VerifResetGlobals()
-	ctx := &engCtx{eng: document.NewTemplateEngine(), names: []string{"A", "B", "G", "base"},
+// engPrep does the harness-side work of an operation that must not count as part of the call
+// (building the base document of a document template).
+func engPrep(op Op) *document.Document {
+	if op.Name() == "Load" {
+		if def, _ := op["def"].(map[string]interface{}); def != nil && def["k"] == "doc" {
+			return engBaseDoc(engStrs(op["src"]))
+		}
+	}
+	return nil
+}
+
+// engCall performs one abstract operation on the engine. For loads it returns the template
+// object, for renders the projected result and the rendered document.
+func (c *engCtx) engCall(op Op, doc *document.Document, td *document.TemplateData) (ret string, t *document.Template, res engRes, out *document.Document) {
+	res = engNoRes()
+	ret, _ = guard(func() string {
+		switch op.Name() {
+		case "Config":
+		case "Load":
+			var err error
+			if doc != nil {
+				t, err = c.eng.LoadTemplateFromDocument(op.Str("n"), doc)
+			} else {
+				t, err = c.eng.LoadTemplate(op.Str("n"), strings.Join(engStrs(op["src"]), "\n"))
+			}
+			return errRet(err)
+		case "Render":
+			res, out = c.render(op.Str("n"), op.Str("e"), td)
+			return res.St
+		case "Get":
+			_, err := c.eng.GetTemplate(op.Str("n"))
+			return errRet(err)
+		case "Validate":
+			tt, err := c.eng.GetTemplate(op.Str("n"))
+			if err != nil {
+				return "err"
+			}
+			return errRet(c.eng.ValidateTemplate(tt))
+		case "Remove":
+			c.eng.RemoveTemplate(op.Str("n"))
+		case "Clear":
+			c.eng.ClearCache()
+		case "SetBasePath":
+			c.eng.SetBasePath("/nonexistent")
+		default:
+			return "unknown-op"
+		}
+		return "ok"
+	})
+	return
+}
+
+func (c *engCtx) track(t *document.Template, doc *document.Document) {
+	c.loads++
+	tr := &engTracked{id: c.loads, tmpl: t, doc: doc}
+	c.tracked = append(c.tracked, tr)
+	c.byPtr[t] = tr.id
+}
+
+func engNewCtx() *engCtx {
+	return &engCtx{eng: document.NewTemplateEngine(), names: []string{"A", "B", "G", "base"},
 		probe: Op{"data": map[string]interface{}{"v": "val1", "items": []interface{}{"n1", "n2"}, "c": true}},
 		byPtr: map[*document.Template]int{}}
+}
+
+func (c *engCtx) config(op Op) {
+	if ns := engStrs(op["names"]); len(ns) > 0 {
+		sort.Strings(ns)
+		c.names = ns
+	}
+	if op.Has("data") {
+		c.probe = op
+	}
+}
+
+func runEngine(c Case, emit Emitter) {
+	document.VerifResetGlobals()
+	document.VerifHook = nil
+	ctx := engNewCtx()
 	emit(Ev{"ev": "reset", "case": c.ID})
 	for i, op := range c.Steps {
 		ev := Ev{"ev": "step", "case": c.ID, "i": i, "op": op}
 		res, again, saved := engNoRes(), engNoRes(), engNoRes()
 		dmod := []string{}
 		ctx.sync()
-		ret, pmsg := guard(func() string {
-			switch op.Name() {
-			case "Config":
-				if ns := engStrs(op["names"]); len(ns) > 0 {
-					sort.Strings(ns)
-					ctx.names = ns
-				}
-				ctx.probe = op
-			case "Load":
-				def, _ := op["def"].(map[string]interface{})
-				src := engStrs(op["src"])
-				n := op.Str("n")
-				var t *document.Template
-				var err error
-				var doc *document.Document
-				if def["k"] == "doc" {
-					doc = engBaseDoc(src)
-					t, err = ctx.eng.LoadTemplateFromDocument(n, doc)
-				} else {
-					t, err = ctx.eng.LoadTemplate(n, strings.Join(src, "\n"))
-				}
-				if err != nil {
-					return "err"
-				}
-				ctx.loads++
-				tr := &engTracked{id: ctx.loads, tmpl: t, doc: doc}
-				ctx.tracked = append(ctx.tracked, tr)
-				ctx.byPtr[t] = tr.id
-			case "Render":
-				var doc *document.Document
-				var dm []string
-				res, doc, dm = ctx.renderChecked(op.Str("n"), op.Str("e"), engOpData(op))
-				dmod = append(dmod, dm...)
-				if res.St == "ok" {
-					saved = engSaved(doc)
-				}
-				again, _, dm = ctx.renderChecked(op.Str("n"), op.Str("e"), engOpData(op))
-				dmod = append(dmod, dm...)
-				return res.St
-			case "Get":
-				_, err := ctx.eng.GetTemplate(op.Str("n"))
-				return errRet(err)
-			case "Validate":
-				t, err := ctx.eng.GetTemplate(op.Str("n"))
-				if err != nil {
-					return "err"
-				}
-				return errRet(ctx.eng.ValidateTemplate(t))
-			case "Remove":
-				ctx.eng.RemoveTemplate(op.Str("n"))
-			case "Clear":
-				ctx.eng.ClearCache()
-			case "SetBasePath":
-				ctx.eng.SetBasePath("/nonexistent")
-			default:
-				return "unknown-op"
+		var ret string
+		switch op.Name() {
+		case "Config":
+			ctx.config(op)
+			ret = "ok"
+		case "Render":
+			// the call the behaviour asks for, its result as saved, and the same call once more
+			td := engData(engOpData(op))
+			before := engFull(td, nil)
+			var doc *document.Document
+			ret, _, res, doc = ctx.engCall(op, nil, td)
+			dmod = append(dmod, engDiff(before, engFull(td, nil))...)
+			if res.St == "ok" {
+				saved = engSaved(doc)
 			}
-			return "ok"
-		})
+			var dm []string
+			again, _, dm = ctx.renderChecked(op.Str("n"), op.Str("e"), engOpData(op))
+			dmod = append(dmod, dm...)
+		default:
+			doc := engPrep(op)
+			var t *document.Template
+			ret, t, _, _ = ctx.engCall(op, doc, nil)
+			if op.Name() == "Load" && ret == "ok" && t != nil {
+				ctx.track(t, doc)
+			}
+		}
 		tmod, bmod := ctx.sync()
 		if op.Name() != "Render" {
 			// only renders are required to leave templates and base documents alone
 			tmod, bmod = []string{}, []string{}
 		}
-		ev["ret"], ev["pmsg"] = ret, pmsg
+		ev["ret"] = ret
 		ev["res"], ev["again"], ev["saved"] = res, again, saved
 		ev["tmod"], ev["bmod"], ev["dmod"] = tmod, bmod, engUniq(dmod)
 		ev["cache"] = ctx.cacheIDs()
